@@ -50,6 +50,8 @@ def build(spec):
     if rng.random() < 0.5:
         mp["seed"] = int(rng.integers(0, 10000))
     mp.pop("lambda_", None)
+    if i % 3 == 0:
+        call["save_output"] = ["conformalization"]  # the diagnostics of every aggregate fit are written to storage
     return el, feed, status, call
 
 
@@ -241,8 +243,11 @@ def judge_call(c, keys_df, out, V):
         vi, ml, mu, sl, su = (float(r[k]) for k in ("var_inflate", "mu_lower_bound", "mu_upper_bound",
                                                     "sigma_lower_bound", "sigma_upper_bound"))
         sd = math.sqrt(W2 + vi * W * W)
-        lb = S_lo - stats.norm.ppf(q, loc=W * ml, scale=sl * sd)
-        ub = S_hi + stats.norm.ppf(q, loc=W * mu, scale=su * sd)
+        # a zero scale (all calibration scores of the ancestor identical) makes the normal distribution a point mass
+        lb = S_lo - (stats.norm.ppf(q, loc=W * ml, scale=sl * sd) if sl * sd > 0 else W * ml)
+        ub = S_hi + (stats.norm.ppf(q, loc=W * mu, scale=su * sd) if su * sd > 0 else W * mu)
+        if sl * sd == 0 or su * sd == 0:
+            out["counters"]["groups_with_zero_scale"] = out["counters"].get("groups_with_zero_scale", 0) + 1
         counted_total = float(kr[counted_col])  # counted votes of the whole group (incl. nonreporting partials)
         fixed = counted_total - part            # reporting + unexpected
         want_lo = max(W + lb, part) + fixed
@@ -278,6 +283,18 @@ def run_case(spec, inputs=None):
     with harness.patched() as p:
         harness.fast_boot_sigma(p)
         rec.install(p)
+        if call["save_output"]:
+            from elexmodel.handlers import s3 as s3mod
+
+            puts = []
+
+            class _Store:
+                def put_object(self, **kw):
+                    puts.append(kw.get("Key"))
+                    return {"ResponseMetadata": {"HTTPStatusCode": 200}}
+
+            p.set(s3mod.boto3, "client", lambda *a, **k: _Store())
+            out["counters"]["runs_saving_conformalization"] = 1
         res, exc = harness.run_estimates(el, feed, call)
         cm = harness.client_mod()
         if exc is not None:
